@@ -68,7 +68,7 @@ func init() {
 	runner.Register(&runner.Prop{
 		ID: "C06",
 		Rule: "One case = one clear single-track CMAF input (same generator and pinned boundary cases as C07: AVC/HEVC with own parameter sets and slice headers, AAC/AC-3 audio, NAL size classes 5..15/16/17..91/92..130/131..999/~1k/~70k, non-VCL NAL > 65535, 1..4 fragments, uuid tfxd/tfrf/unknown, unknown 4cc, free, pssh boxes in moof/traf; the repo's real clear streams) x one configuration (cenc|cbcs, key random|zero|ff, IV 8|16 incl. counter wraps, optional pssh), " +
-			"encrypted by library protocol (InitProtect, EncryptFragment, Encode; reader|slice reader; combined|separate init; ExtractInitProtectData) or mp4ff-encrypt, then decrypted by library protocol (DecryptInit, DecryptSegment, Encode in segment or box-tree mode) or mp4ff-decrypt (combined or -init), independently chosen. " +
+			"encrypted by library protocol (InitProtect, EncryptFragment, Encode; reader|slice reader; combined|separate init; ExtractInitProtectData) or mp4ff-encrypt, then decrypted by library protocol (DecryptInit, DecryptSegment, Encode in segment or box-tree mode) or mp4ff-decrypt (combined, combined plus -init naming a copy of the file's own init part, or media with -init), independently chosen. " +
 			"Oracle on the decrypted *bytes*, read with ref/boxwalk + ref/cenc: samples (bytes via moof start + data_offset, size, duration, flags, cto, decode time) = generator ground truth; sample entry type restored and no sinf left; every non-protection box of the same-mode re-encode of the clear input present, in order, byte-identical (trun data_offset masked and checked through the sample bytes; container size fields excluded; top-level sidx excluded). " +
 			"Case list: the 88 pinned cases of C07, 5400 (quick) / 250000 (thorough) random cases, 60 third-party cases, 3000 (quick) / 60000 (thorough) multi-track cases. Third-party cases (appended): the repo's cenc/cbcs/cbcs-audio/PIFF files decrypted with the test key, a wrong key and the zero key by library (3 variants) and tool: per track and fragment sample count/size/duration/cto/decode time unchanged, and the sample bytes equal the reference cipher's decryption with that key. " +
 			"Multi-track cases (appended after the third-party cases; 3000 quick / 60000 thorough): 2 (3/4) or 3 (1/4) independently generated single-track inputs (mostly video+audio in either order, 1/8 any codecs; own scheme, IV, KID and pssh choice per track, one shared key; 1/8: one of the tracks stays unencrypted) are encrypted one by one (library reader|slice reader, 1/6 mp4ff-encrypt) and MERGED on the byte level (gen/cencgen.Merge on the editable tree of the independent walker) into one file: one moov with the trak boxes in a PRNG order, track ids rewritten to a permutation of 1..n or to distinct values of {1,2,3,4,5,7,16,100,255,256,1000,65535,65536,2^31-1,2^31,2^32-2}, one mvex (before or after the traks) whose trex boxes are in an independently drawn order, all pssh boxes; fragments are single-traf fragments alternating between the tracks, fragments with one traf per track (traf order and the order of the tracks' sample data in mdat drawn independently; every traf keeps its own senc/saiz/saio, the saio offset is recomputed to the moof-relative position of that traf's first senc entry, every trun data_offset recomputed, tfhd default-base-is-moof), or a random mix; for 2/3 of the tracks tfhd default duration/size/flags that are equal in all fragments of the track are moved into its trex, so that reading the samples needs the right trex. The same merge of the clear re-encodes is the baseline input. The merged encrypted file is decrypted as one file (DecryptInit + DecryptSegment, reader|slice reader, segment|box-tree encode, combined or separate init; 1/5 mp4ff-decrypt, combined or -init) and judged per track exactly like a single-track case: every traf of every fragment = the generated samples of the track fragment the plan put there (bytes, size, duration, flags, cto, decode time), every trak's sample entry type restored without sinf, no pssh left in moov, all non-protection boxes of the merged clear baseline present, in order and byte-identical, output decodable. Before judging, the harness reads its own merged files with ref/cenc (clear merge carries the generated samples; encrypted merge: senc of every traf tiles with the IV size of its own track and saio points at it), a failure there is inconclusive (generator), never a violation. Keys multi/<scheme set>/<clause> and multi/<scheme|clear>/<avc|hevc|audio>/<clause>; evidence: multi_trak_vs_trex_order (ranks of the track ids in trak and trex order), multi_fragment, multi_fragment_shape, multi_track_ids, multi_traf_schemes_in_one_moof, multi_per_sample_iv_sizes_in_trak_order, multi_tfhd_default_moved_to_trex, counters multi_*. " +
@@ -291,7 +291,22 @@ func run(c *runner.Ctx, idx int) {
 			decMedia, err = tools.Decrypt(enc.Init, enc.Media, cfg.KeyHex())
 			// the tool does not write a decrypted init in this mode
 		} else {
-			decMedia, err = tools.Decrypt(nil, enc.Media, cfg.KeyHex())
+			var extraInit []byte
+			if c.Rand.Chance(1, 3) {
+				// the combined file together with -init naming a copy of its own init part: the file's
+				// own init segment is the one that is decrypted and written, as without the option
+				if nodes, werr := boxwalk.Walk(enc.Media); werr == nil {
+					for _, n := range nodes {
+						if n.Type == "moov" {
+							extraInit = append([]byte{}, enc.Media[:n.End()]...)
+						}
+					}
+				}
+				if extraInit != nil {
+					x.dec = "tool+redundant-init"
+				}
+			}
+			decMedia, err = tools.Decrypt(extraInit, enc.Media, cfg.KeyHex())
 		}
 	} else {
 		x.dec = "lib/" + dopt.String()
